@@ -43,7 +43,7 @@ def monitor_snap(m):
     return {'type': type(m).__name__,
             'x': canon(getattr(m, '_x', ())), 'y': canon(getattr(m, '_y', ())),
             'id': canon(getattr(m, '_id', ())), 'info': canon(getattr(m, '_info', ())),
-            'k': canon(getattr(m, 'k', None)), 'ik': canon(getattr(m, '_ik', None))}
+            'k': canon(getattr(m, 'k', None))}
 
 def solver_snap(s, monitors=True):
     d = {}
